@@ -287,13 +287,15 @@ func (x *AuthenticationSettings) toInternal() (s *agd.AuthSettings, err error) {
 }
 
 // dohPasswordToInternal converts a protobuf DoH password hash sum-type to an
-// internal one.  If pbp is nil, it returns nil.
+// internal one.  If pbp is nil, it returns [agdpasswd.AllowAuthenticator].
 func dohPasswordToInternal(
 	pbp isAuthenticationSettings_DohPasswordHash,
 ) (p agdpasswd.Authenticator, err error) {
 	switch pbp := pbp.(type) {
 	case nil:
-		return nil, nil
+		// No hash means that any password is accepted, as in the backend
+		// conversion; [agd.AuthSettings.PasswordHash] is never nil.
+		return agdpasswd.AllowAuthenticator{}, nil
 	case *AuthenticationSettings_PasswordHashBcrypt:
 		return agdpasswd.NewPasswordHashBcrypt(pbp.PasswordHashBcrypt), nil
 	default:
